@@ -212,7 +212,7 @@ func init() {
 	explore.Register(&explore.Check{ID: "C18", Run: func(rc *explore.RunCtx) {
 		depth := 4
 		if !rc.Quick() {
-			depth = 4
+			depth = 5
 		}
 		rc.Set("depth_bound", depth)
 		rc.Assume = append(rc.Assume,
